@@ -739,7 +739,7 @@ Ignored == {"conn.new", "tmo.set", "tmo.fire", "rpc.finish", "rpc.recv", "rpc.dr
             "srv.accept", "srv.decoded", "srv.ret", "srv.end",
             "app.start", "app.end", "app.drop",
             "obs.connect_call", "obs.disconnect", "h.exit", "shut.idle", "shut.rebound",
-            "obs.note", "obs.sub_lagged"}
+            "obs.note", "obs.sub_lagged", "obs.known_finding"}
 
 TrIgnored ==
   /\ l <= Len(Rec) /\ Cur.ev \in Ignored /\ l' = l + 1 /\ now' = Cur.t
